@@ -61,9 +61,25 @@ async def party_main(world, p, prog, case):
             return []
         return [_pl(v) for v in await rt.output(lst)]
 
-    for op in prog['ops']:
+    deferred = bool(prog.get('deferred'))
+    pending = None          # (index in trace, secure result object) of a read that was issued but not yet awaited
+    nops = len(prog['ops'])
+    for opi, op in enumerate(prog['ops']):
         name = op[0]
         r = None
+        if deferred and pending is None and opi + 1 < nops and name in ('get', 'count', 'contains', 'find', 'index') \
+                and not (name != 'get' and not len(s)):
+            # MPyC style: the result is a placeholder that is opened LATER; the list is modified (next operation)
+            # before anything is awaited, so the result must reflect the list as it was at the call
+            if name == 'get':
+                _, how, i = op
+                key = i if how == 'pub' else _idx(rt, T, s, how, i, len(s))
+                obj = s[key]
+            else:
+                obj = getattr(s, name)(T(val(op[1])))
+            pending = (len(trace), obj)
+            trace.append([len(s), None, None])
+            continue
         if name == 'get':
             _, how, i = op
             key = i if how == 'pub' else _idx(rt, T, s, how, i, len(s))
@@ -136,6 +152,10 @@ async def party_main(world, p, prog, case):
             r = await open1(c)
         else:
             raise ValueError(name)
+        if pending is not None:
+            k_, obj = pending
+            pending = None
+            trace[k_][2] = await open1(obj)
         trace.append([len(s), await opened(s), r])
     return {'trace': trace}
 
@@ -213,6 +233,8 @@ def judge(fam, case, cfg, w, res):
             continue
         tr = p.result['trace']
         for k, (e, g) in enumerate(zip(exp, tr)):
+            if g[1] is None and len(g) == 3:
+                e = [e[0], None, e[2]]       # deferred read: contents were not opened at that step
             if e != g:
                 what = 'length' if e[0] != g[0] else 'contents' if e[1] != g[1] else 'result'
                 res.violations.append(('wrong-value',
@@ -329,7 +351,8 @@ def gen(rng, cfg, tier='quick'):
             continue
         ops.append(op)
         ref = out[-1][1]
-    return {'family': NAME, 'type': td, 'init': init, 'dummy': [0] * len(init), 'ops': ops, 'sender': rng.randrange(cfg.m)}
+    return {'family': NAME, 'type': td, 'init': init, 'dummy': [0] * len(init), 'ops': ops, 'sender': rng.randrange(cfg.m),
+            'deferred': rng.random() < 0.35}
 
 
 def shrink_candidates(case):
